@@ -94,6 +94,10 @@ def make_scratch(h, tag):
     open(os.path.join(crate, ".cargo", "config.toml"), "w").write("[net]\noffline = true\n")
     # inject harness modules (copied, so that concrete playback can write next to them)
     mods = [h["module"]] + list(h.get("needs", []))
+    if h.get("file"):
+        # self-contained harness file: <module>.<variant>.rs injected as child module verif_<variant>; it needs only
+        # the helper modules it lists itself, not the module's main harness file
+        mods = list(h.get("needs", []))
     k = 0
     while k < len(mods):  # transitive closure over module-level needs
         for m2 in registry.MODULE_NEEDS.get(mods[k], []):
@@ -107,12 +111,21 @@ def make_scratch(h, tag):
         shutil.copy(hfile, os.path.join(moddir, "verif_h.rs"))
         with open(src, "a") as f:
             f.write("\n#[cfg(kani)]\npub(crate) mod verif_h;\n")
+    if h.get("file"):
+        m = h["module"]
+        src, moddir = module_src_file(crate, m)
+        os.makedirs(moddir, exist_ok=True)
+        hfile = os.path.join(VERIF, "harness", "%s.%s.rs" % ((m.replace("::", "__") or "lib"), h["file"]))
+        shutil.copy(hfile, os.path.join(moddir, "verif_%s.rs" % h["file"]))
+        with open(src, "a") as f:
+            f.write("\n#[cfg(kani)]\npub(crate) mod verif_%s;\n" % h["file"])
     return root, crate
 
 
 def harness_path(h):
     m = h["module"]
-    return ("%s::verif_h::%s" % (m, h["name"])) if m else ("verif_h::%s" % h["name"])
+    child = "verif_%s" % h["file"] if h.get("file") else "verif_h"
+    return ("%s::%s::%s" % (m, child, h["name"])) if m else ("%s::%s" % (child, h["name"]))
 
 
 # ------------------------------------------------------------------------------------------------
@@ -327,7 +340,7 @@ def playback(h, crate, tests, logdir, profile_release=False, write=True):
     """Append the generated tests to the injected harness file and run them natively.
     Returns list of (test_name, reproduced: bool, panic message)."""
     _, moddir = module_src_file(crate, h["module"])
-    hf = os.path.join(moddir, "verif_h.rs")
+    hf = os.path.join(moddir, ("verif_%s.rs" % h["file"]) if h.get("file") else "verif_h.rs")
     names = []
     with open(hf, "a") as f:
         for t in tests:
